@@ -7,6 +7,7 @@ void run_lexer(const char *input);
 void run_match(const char *input);
 void run_errstr(const char *input);
 void run_expr(const char *input);
+void run_buffmt(const char *input);
 void run_parse(const char *input);
 
 void dom_replay(const char *line) {
@@ -21,6 +22,7 @@ void dom_replay(const char *line) {
         case 'M': run_match(copy); break;
         case 'E': run_errstr(copy); break;
         case 'X': run_expr(copy); break;
+        case 'F': run_buffmt(copy); break;
         case 'P': run_parse(copy); break;
         default: break;
     }
